@@ -1,6 +1,7 @@
 package props
 
 import (
+	"encoding/json"
 	"bytes"
 	"context"
 	"fmt"
@@ -37,6 +38,10 @@ type c18Act struct {
 	// InWrite (kind cancelsend): the call's context ends while its request is being written - after
 	// the client's "is the context done" check, before send() goes on past the write
 	InWrite bool `json:"in_write,omitempty"`
+	// Dump: the application takes a state dump of the connection (what gohbase.DebugState does for every
+	// region client: json.Marshal) - with Gate, at the moment the response has been consumed and the
+	// sender has not gone on yet; otherwise right after the action. Looking must not change anything.
+	Dump bool `json:"dump,omitempty"`
 }
 
 type c18Case struct {
@@ -197,6 +202,15 @@ func c18RunInBubble(c c18Case) (out Outcome) {
 	var mu sync.Mutex
 	opts := memconn.Options{}
 	var cancelInWrite *c18Call
+	gateDump := false
+	dumps := 0
+	var dumpTarget any
+	dump := func() {
+		if dumpTarget != nil {
+			json.Marshal(dumpTarget)
+			dumps++
+		}
+	}
 	opts.AfterWrite = func(data []byte) {
 		if cw := cancelInWrite; cw != nil && len(data) >= 8 && !bytes.HasPrefix(data, wire.Preamble) {
 			cancelInWrite = nil
@@ -220,6 +234,10 @@ func c18RunInBubble(c c18Case) (out Outcome) {
 		for i := 0; i < 20000 && !delivered(); i++ {
 			srv.answerID(req.Header.GetCallId())
 			runtime.Gosched()
+		}
+		if gateDump {
+			gateDump = false
+			dump()
 		}
 	}
 	var gate2Call *c18Call
@@ -269,6 +287,7 @@ func c18RunInBubble(c c18Case) (out Outcome) {
 		return viol("harness", "dial: %v", err)
 	}
 	srv = startRCServer(env.pair)
+	dumpTarget = env.rc
 	var calls []*c18Call
 	defer func() {
 		env.rc.Close()
@@ -338,7 +357,9 @@ func c18RunInBubble(c c18Case) (out Outcome) {
 		switch a.Kind {
 		case "send":
 			sendGate2 = a.Gate2 && !a.Gate
+			gateDump = a.Gate && a.Dump
 			send(false, false, a.Gate)
+			gateDump = false
 		case "answersend":
 			mu.Lock()
 			holdClear = a.HoldClear
@@ -388,6 +409,10 @@ func c18RunInBubble(c c18Case) (out Outcome) {
 			time.Sleep(time.Duration(a.MS) * time.Millisecond)
 		}
 		synctest.Wait()
+		if a.Dump && !(a.Kind == "send" && a.Gate) {
+			dump()
+			synctest.Wait()
+		}
 		if srv.bad != "" {
 			return viol("harness", "server: %s", srv.bad)
 		}
@@ -536,6 +561,9 @@ func c18RunInBubble(c c18Case) (out Outcome) {
 	if zeroCrossings > 0 {
 		out.Labels = append(out.Labels, "returned_to_zero")
 	}
+	if dumps > 0 {
+		out.Labels = append(out.Labels, "state_dump_taken")
+	}
 	out.NonTrivial = idleLong || silentWithOutstanding
 	return out
 }
@@ -556,6 +584,7 @@ func c18Gen(t *rapid.T) c18Case {
 				act := c18Act{Kind: kind, Gate: kind == "send" && rapid.IntRange(0, 2).Draw(t, "gate") == 0}
 				act.InWrite = kind == "cancelsend" && rapid.Bool().Draw(t, "inwrite")
 				act.Gate2 = kind == "send" && !act.Gate && rapid.IntRange(0, 2).Draw(t, "gate2") == 0
+				act.Dump = rapid.IntRange(0, 3).Draw(t, "dump") == 0
 				c.Acts = append(c.Acts, act)
 			}
 			if c.FlushMS > 0 {
@@ -574,7 +603,7 @@ func c18Gen(t *rapid.T) c18Case {
 	n := rapid.IntRange(1, 25).Draw(t, "nacts")
 	for i := 0; i < n; i++ {
 		k := rapid.SampledFrom([]string{"send", "send", "sendbatched", "cancelsend", "sendbad", "answer", "answer", "answer", "answersend", "wait", "wait"}).Draw(t, "kind")
-		a := c18Act{Kind: k}
+		a := c18Act{Kind: k, Dump: rapid.IntRange(0, 4).Draw(t, "dump") == 0}
 		switch k {
 		case "send":
 			a.Gate = rapid.IntRange(0, 2).Draw(t, "gate") == 0
@@ -604,7 +633,7 @@ func TestC18_ReadDeadline(t *testing.T) {
 		"rapid, virtual time: action scripts of 1..25 steps on one region client over an in-memory connection whose "+
 			"peer is the harness: send (unbatched; optionally with the writer held until the reader has consumed the "+
 			"response to that very request), send batched, send-and-cancel (after queueing, or while the request is being written), send a call that cannot be serialised, answer the i-th outstanding request (any "+
-			"order, also for cancelled calls and multi-requests), let time pass (0.001x .. 50x the read timeout); read "+
+			"order, also for cancelled calls and multi-requests), take a state dump of the connection (json.Marshal, as DebugState does; also at the moment a response has been consumed while its sender is still held), let time pass (0.001x .. 50x the read timeout); read "+
 			"timeout in {10ms..60s}. Invariant at every quiescence point: read deadline armed <=> the server holds "+
 			"unanswered requests, and armed deadline == last send + read timeout; a silent server fails every "+
 			"outstanding call with a ServerError at that instant and later calls are refused; an idle connection is "+
